@@ -51,17 +51,21 @@ Proof.
   intros H. apply mapM_ext_in. intros b Hin. destruct (H b Hin) as [E1 E2]. unfold abs_bond. rewrite E1, E2. reflexivity.
 Qed.
 
-Theorem join_abs h t other h' t' va vo :
+Lemma join_abs_core h t other keep start w2x h1 out w2' h2 t2 news2 t3 va vo :
   wfo h t -> wfo h other -> abs h t = Some va -> abs h other = Some vo ->
-  join flags_fix h t other true = Some (h', t') ->
-  abs h' t' = Some (join_v va vo) /\ agree (h_next h) h h' /\ (forall l, In l (reach h' t') -> h_next h <= l).
+  copy flags_fix h t = Some (h1, out) ->
+  walk h1 other = Some w2' ->
+  join_chains true keep start w2' = copy_desc true w2x -> walk_atoms w2x = walk_atoms w2' ->
+  build_chains h1 out (join_chains true keep start w2') = Some (h2, t2, news2) ->
+  add_bonds_mapped h2 t2 (combine (map fst (walk_atoms w2')) news2) (t_bonds other) false = Some t3 ->
+  abs h2 t3 = Some {| vt_chains := vt_chains va ++
+                                   renum_chains (length (vt_chains va)) (length (v_residues va)) (length (v_atoms va)) (map vchain_of w2x);
+                      vt_bonds := vt_bonds va ++ map (shift_bond (length (v_atoms va))) (vt_bonds vo) |} /\
+  agree (h_next h) h h2 /\ (forall l, In l (reach h2 t3) -> h_next h <= l).
 Proof.
-  intros Wt Wo Ha Ho Hj.
+  intros Wt Wo Ha Ho Hcopy Hwalk2' Hdesc HWx Hbuild Hadd.
   pose proof Wt as Wt0. pose proof Wo as Wo0.
   destruct Wt as [Hw _ [w [Hwalk [Hn [Hnd [_ [_ [_ [_ Hb]]]]]]]]].
-  unfold join in Hj. inv_bind Hj. destruct x as [h1 out]. rename E into Hcopy. cbn [obind] in Hj.
-  inv_bind Hj. rename x into w2'. rename E into Hwalk2'. inv_bind Hj. destruct x as [[h2 t2] news2]. rename E into Hbuild.
-  inv_bind Hj. rename x into t3. rename E into Hadd. inversion Hj; subst h' t'; clear Hj.
   destruct (copy_fix_struct h t w h1 out Hw Hwalk Hn Hnd Hb Hcopy)
     as [Hw1 [Hag1 [Hle1 [HLw1 [Hc1 [Hr1 [Ha1 [Hna1 [Hnr1 [Hbonds1 Hbe1]]]]]]]]]].
   set (L1 := lay_chains (h_next h) 0 0 0 (copy_desc true w)) in *.
@@ -70,15 +74,15 @@ Proof.
   pose proof (wfo_agree h h1 other Wo0 Hw1 Hag1) as Wo1.
   destruct Wo as [_ _ [w2 [Hwalk2 [Hn2 [Hnd2 [_ [_ [_ [_ Hb2]]]]]]]]].
   assert (w2' = w2) by (pose proof (walk_agree h h1 other w2 Hw Hag1 Hwalk2); congruence). subst w2'.
-  rewrite join_chains_keep in Hbuild.
+  rewrite Hdesc in Hbuild.
   pose proof (build_chains_layout _ _ _ _ _ _ Hw1 Hbuild) as HL2. simpl in HL2.
   rewrite Hc1, Hnr1, Hna1 in HL2.
   set (nc := length (map fst L1)) in *. set (nr := length (lay_chain_res L1)) in *. set (na := length news1) in *.
-  set (L2 := lay_chains (h_next h1) nc nr na (copy_desc true w2)) in *.
+  set (L2 := lay_chains (h_next h1) nc nr na (copy_desc true w2x)) in *.
   destruct HL2 as [Hw2 [Hn2' [Hnews2 [Ht2 [Hag2 HLw2]]]]].
   set (W2 := walk_atoms w2) in *. set (olds2 := map fst W2) in *.
   assert (Hlen2 : length olds2 = length news2).
-  { rewrite Hnews2. unfold olds2, W2. rewrite !map_length. unfold L2. rewrite lay_chain_atoms_length, natoms_desc_copy. reflexivity. }
+  { rewrite Hnews2. unfold olds2, W2. rewrite !map_length. unfold L2. rewrite lay_chain_atoms_length, natoms_desc_copy, HWx. reflexivity. }
   assert (Hidx_old : map (fun x => a_index (snd x)) W2 = seq 0 (length W2)) by (apply normal_atom_idx; exact Hn2).
   assert (Hidx_new : map (fun x => a_index (snd x)) (lay_chain_atoms L2) = seq na (length (lay_chain_atoms L2))).
   { unfold L2. rewrite lay_chains_idx, lay_chain_atoms_length. reflexivity. }
@@ -156,13 +160,14 @@ Proof.
   rewrite Hbonds_o in Hnbabs.
   (* assemble *)
   assert (Hc3 : t_chains t3 = map fst L1 ++ map fst L2) by (rewrite S1, Ht2; simpl; rewrite Hc1; reflexivity).
-  assert (Hchains : mapM (abs_chain h2) (t_chains t3) = Some (vt_chains (join_v va vo))).
+  assert (Hchains : mapM (abs_chain h2) (t_chains t3) =
+                    Some (vt_chains va ++ renum_chains (length (vt_chains va)) (length (v_residues va)) (length (v_atoms va)) (map vchain_of w2x))).
   { rewrite Hc3. apply mapM_app.
     - assert (E : mapM (walk_chain h2) (map fst L1) = Some (map snd L1)).
       { apply mapM_pairs. intros x cw Hin. apply walk_chain_agree with (h := h1); [exact Hw1 | exact Hag2 | apply HLw1; exact Hin]. }
       rewrite (abs_chains_walk _ _ _ E). rewrite map_map. unfold L1. rewrite lay_chains_abs. unfold normal in Hn. rewrite Hn, Hvac. reflexivity.
     - rewrite (abs_chains_walk _ _ _ (walk_of_layout _ _ HLw2)). rewrite map_map. unfold L2. rewrite lay_chains_abs.
-      rewrite Hnc, Hnr, Hna, Hvoc. reflexivity. }
+      rewrite Hnc, Hnr, Hna. reflexivity. }
   assert (Hb3 : t_bonds t3 = t_bonds out ++ nb) by (rewrite Hnb, Ht2; reflexivity).
   assert (Hbo : mapM (abs_bond h2) (t_bonds out) = Some (vt_bonds va)).
   { rewrite <- Hvab, <- Hbonds1. apply abs_bonds_agree. intros b Hbin. destruct (Hbe1 b Hbin) as [E1 [E2 [a1 [a2 [G1 [G2 _]]]]]].
@@ -198,4 +203,25 @@ Proof.
     assert (Hsnd : forall x, In x (map snd (combine olds2 news2)) -> In x news2).
     { intros x Hx. apply in_map_iff in Hx. destruct Hx as [[k0 v0] [Heq Hx]]. simpl in Heq; subst v0. eapply in_combine_r; eauto. }
     destruct Hin as [<-|[<-|[]]]; apply B2; right; right; rewrite <- Hnews2; apply Hsnd; assumption.
+Qed.
+
+Theorem join_abs h t other h' t' va vo :
+  wfo h t -> wfo h other -> abs h t = Some va -> abs h other = Some vo ->
+  join flags_fix h t other true = Some (h', t') ->
+  abs h' t' = Some (join_v va vo) /\ agree (h_next h) h h' /\ (forall l, In l (reach h' t') -> h_next h <= l).
+Proof.
+  intros Wt Wo Ha Ho Hj.
+  unfold join in Hj. inv_bind Hj. destruct x as [h1 out]. rename E into Hcopy. cbn [obind] in Hj.
+  inv_bind Hj. rename x into w2'. rename E into Hwalk2'. inv_bind Hj. destruct x as [[h2 t2] news2]. rename E into Hbuild.
+  inv_bind Hj. rename x into t3. rename E into Hadd. inversion Hj; subst h' t'; clear Hj.
+  change (f_cid_join flags_fix) with true in Hbuild.
+  destruct (join_abs_core h t other true 0%Z w2' h1 out w2' h2 t2 news2 t3 va vo Wt Wo Ha Ho Hcopy Hwalk2'
+              (join_chains_keep true 0%Z w2') eq_refl Hbuild Hadd) as [A [B C]].
+  split; [|split; assumption]. rewrite A. unfold join_v. repeat f_equal.
+  (* other's walk in h1 is its walk in h *)
+  pose proof (copy_frame h t h1 out Wt Hcopy) as Hag1.
+  destruct Wo as [Hwo _ [w2 [Hwalk2 _]]].
+  destruct Wt as [Hw _ _].
+  assert (w2' = w2) by (pose proof (walk_agree h h1 other w2 Hw Hag1 Hwalk2); congruence). subst w2'.
+  unfold abs in Ho. unfold walk in Hwalk2. rewrite (abs_chains_walk _ _ _ Hwalk2) in Ho. simpl in Ho. inv_bind Ho. inversion Ho. reflexivity.
 Qed.
